@@ -13,7 +13,7 @@ from fractions import Fraction
 import z3
 
 from . import core
-from .core import CTX, Outside, Sym, as_sym, explore, prove, PI, RV
+from .core import CTX, Outside, Sym, as_sym, explore, prove, prove_focus, PI, RV
 from . import arrays as A
 from . import xrs as X
 
@@ -240,6 +240,12 @@ def discharge(obls, timeout_ms=20000, retry=False, deadline=None):
         if deadline is not None and time.time() > deadline:
             ob.status, ob.solver, ob.time_s = "unknown", "budget", 0.0
             continue
+        if ob.meta.get("focus"):
+            ok, dt0 = prove_focus(ob.meta["focus"], ob.goal)
+            if ok:
+                ob.status, ob.solver, ob.time_s = "proved", "z3-focus", dt0
+                ob.meta["lemmas"] = []
+                continue
         st, solver, dt, model, lem = prove(ob.hyps, ob.goal, timeout_ms=timeout_ms, scale=2 if retry else 1)
         ob.status, ob.solver, ob.time_s = st, solver, dt
         ob.meta["lemmas"] = lem
